@@ -14,7 +14,9 @@ import (
 	"verif/explore"
 	"verif/harness"
 	"verif/model"
+	"github.com/syndtr/goleveldb/leveldb/storage"
 	"verif/vsched"
+	"verif/vstor"
 	"verif/vsync"
 )
 
@@ -33,6 +35,8 @@ type concParams struct {
 	TB int `json:"tb,omitempty"`
 	// Where: record call sites of blocked goroutines (diagnostic re-run of one schedule).
 	Where bool `json:"where,omitempty"`
+	// Faults are armed on the storage when the concurrent window opens.
+	Faults []faultSpec `json:"faults,omitempty"`
 }
 
 // linInput / linOutput are the porcupine operation payloads.
@@ -80,29 +84,32 @@ func decodeState(s kvState) map[string]string {
 }
 
 func linModel(init map[string]string) porcupine.Model {
-	return porcupine.Model{
-		Init: func() interface{} { return encodeState(init) },
-		Step: func(state, input, output interface{}) (bool, interface{}) {
+	apply := func(st map[string]string, b model.Batch) kvState {
+		for _, o := range b {
+			if o.Del {
+				delete(st, o.K)
+			} else {
+				st[o.K] = o.V
+			}
+		}
+		return encodeState(st)
+	}
+	nm := porcupine.NondeterministicModel{
+		Init: func() []interface{} { return []interface{}{encodeState(init)} },
+		Step: func(state, input, output interface{}) []interface{} {
 			st := decodeState(state.(kvState))
 			in := input.(linInput)
 			out := output.(linOutput)
 			switch in.Kind {
 			case "write":
 				if out.Err != "" {
-					// a failed write may or may not have taken effect: both admitted
-					return true, state
+					// a failed write is wholly applied or wholly absent: both admitted
+					return []interface{}{state, apply(st, in.Batch)}
 				}
-				for _, o := range in.Batch {
-					if o.Del {
-						delete(st, o.K)
-					} else {
-						st[o.K] = o.V
-					}
-				}
-				return true, encodeState(st)
+				return []interface{}{apply(st, in.Batch)}
 			case "get", "view":
 				if out.Err != "" {
-					return true, state
+					return []interface{}{state}
 				}
 				for i, k := range in.Keys {
 					v, ok := st[k]
@@ -110,23 +117,24 @@ func linModel(init map[string]string) porcupine.Model {
 						v = notFound
 					}
 					if out.Vals[i] != v {
-						return false, state
+						return nil
 					}
 				}
-				return true, state
+				return []interface{}{state}
 			case "scan":
-				if out.Err != "" {
-					return true, state
+				if out.Err != "" || string(encodeState(st)) == out.Vals[0] {
+					return []interface{}{state}
 				}
-				return string(encodeState(st)) == out.Vals[0], state
+				return nil
 			}
-			return false, state
+			return nil
 		},
 		Equal: func(a, b interface{}) bool { return a.(kvState) == b.(kvState) },
 		DescribeOperation: func(input, output interface{}) string {
 			return fmt.Sprintf("%+v -> %+v", input, output)
 		},
 	}
+	return nm.ToModel()
 }
 
 // concRun is one execution's record.
@@ -183,6 +191,9 @@ func runConc(p *concParams, prefix []int, extra func(w *harness.World, cr *concR
 			cr.Init[k] = v
 		}
 		db := w.DB
+		for _, f := range p.Faults {
+			w.Stor.Rules = append(w.Stor.Rules, &vstor.Rule{Kind: vstor.Kind(f.Kind), Types: storage.FileType(f.Type), Nth: f.Nth, Count: f.Count, Mode: vstor.Mode(f.Mode)})
+		}
 		var wg vsync.WaitGroup
 		record := func(cid int, in linInput, call int64, out linOutput, what string) {
 			cr.Hist = append(cr.Hist, porcupine.Operation{ClientId: cid, Input: in, Call: call, Output: out, Return: tick()})
@@ -306,6 +317,7 @@ func runConc(p *concParams, prefix []int, extra func(w *harness.World, cr *concR
 		}
 		wg.Wait()
 		vsched.Disarm()
+		w.Stor.Rules = nil
 		// final read-back, after everything
 		keys := map[string]bool{}
 		for k := range cr.Init {
